@@ -208,6 +208,8 @@ def dispersion_rule(chk, repo, clause):
 
 
 def run(chk, repo, tier):
+    from .common import no_hidden_state
+    no_hidden_state(chk, repo, 'C04')
     chk.clause('C04-a', 'Tilt(x,y) -> (row, col) shift: same-axis pixel size, +x -> +row, +y -> -col, times z*oversample', 2)
     chk.clause('C04-c', 'every shift implementation is additive in the incoming shift', 4)
     chk.clause('C04-d', 'all tilts are folded / concatenated / attached', 3)
